@@ -236,10 +236,14 @@ def run(c: Check):
         e = rounds[len(rounds) // 2]
         c.sample({"round": {k: e[k] for k in ("faults", "real", "remote", "ms")}})
     segs = segments(ev)
+    seen = {}
     for (sn, i), (clauses, ms, md) in sorted(nonconf.items()):
-        report(c, segs[sn], i, clauses, why.get((sn, i), "none"), ms, md)
+        report(c, segs[sn], i, clauses, why.get((sn, i), "none"), ms, md, seen)
     for sn, i in stuck:
-        report(c, segs[sn], i, ["stuck"], "none", "", "")
+        report(c, segs[sn], i, ["stuck"], "none", "", "", seen)
+    for k, n in sorted(seen.items()):
+        if n > 2:
+            c.notes.append("%d more failing events with signature %s (first two reported)" % (n - 2, k))
     crash_points(c, th)
     c.assumptions += [
         "every version of every list blocks two probe hosts of its own (first and last line of its text); the served "
@@ -254,12 +258,16 @@ def run(c: Check):
     ]
 
 
-def report(c, sg, idx, clauses, known, ms, md):
+def report(c, sg, idx, clauses, known, ms, md, seen):
     e = sg[idx]
     rnd = next((x for x in reversed(sg[:idx + 1]) if x["ev"] == "Round"), None)
     hist = [(x["ev"], x.get("faults") or x.get("up")) for x in sg[1:idx + 1] if x["ev"] in ("Round", "Crash", "Restart")]
     prop = [x for x in clauses if x != "MatchesModel"]
     sig = {"kind": prop[0] if prop else clauses[0], "explained_by": known, "ev": e["ev"]}
+    key = json.dumps(sig, sort_keys=True)
+    seen[key] = seen.get(key, 0) + 1
+    if seen[key] > 2:
+        return
     c.violation(sig,
                 "C13 %s: %s not satisfied by event %d (%s) of behaviour %s; steps so far %s; last round: faults=%s "
                 "produced=%s variants=%s; observed served=%s disk=%s applied=%s ok=%s odd=%s/%s; model expected "
@@ -300,8 +308,9 @@ def crash_points(c, th):
         # quick: the rule-list file and the hash-prefix file, the window around the replacement;
         # thorough: every cache file, every kill point, also with the file initially absent
         plan = [("rl1", False, 34), ("hp", False, 22)] if not th else \
-            [(t, a, 4000) for t in ("rl1", "hp", "ridx", "sidx", "ss", "rl2") for a in (False, True)]
-        allev, total, verdicts = [], 0, []
+            [("rl1", False, 4000), ("rl1", True, 4000), ("hp", False, 4000), ("hp", True, 4000), ("ridx", False, 4000),
+             ("sidx", False, 4000), ("ss", False, 4000), ("rl2", False, 4000)]
+        allev, total, verdicts, vacuous = [], 0, [], []
         for n, (tgt, absent, max_n) in enumerate(plan):
             d = os.path.join(root, "%s-%d" % (tgt, n))
             target = os.path.join(d, paths[tgt])
@@ -333,12 +342,14 @@ def crash_points(c, th):
             at_rename = [e for e in ev if e["ev"] == "Kill" and e["at"].startswith("rename")
                          and os.path.basename(target) + '"' in e["last"]]
             if not at_rename:
-                raise Undecided("no kill at the rename that replaces %s (kill points %s)" % (
+                vacuous.append("no kill at the rename that replaces %s (kill points %s)" % (
                     tgt, [e["at"] for e in ev if e["ev"] == "Kill"]))
         if total < 20:
             raise Undecided("only %d kill points reached" % total)
         fails = c.validate_segments("TraceAtomicFile", "TraceAtomicFile.cfg", allev,
                                     is_reset=lambda e: e["ev"] == "Begin", max_fail=8)
+        if vacuous and not fails:
+            raise Undecided("; ".join(vacuous))
         for e in allev:
             if e["ev"] == "Kill":
                 c.count_case(("kill", e["target"], e["n"], e["absent"], e["last"][:60]), nontrivial=True)
